@@ -282,6 +282,20 @@ func (x *Exec) loopLocs(st *State, l *Loop) []loopLoc {
 				loc = x.bufKeyT(st, loc, at.Ty)
 			}
 			out = append(out, loopLoc{key, loc})
+		case e.Kind == "call" && e.Name == "elems" && len(e.Args) == 1 && e.Args[0].Kind != "str":
+			// elems(s): the elements of the array behind slice s (one row of the element region)
+			sl := env.eval(e.Args[0])
+			if env.err != nil || sl.Ty == nil {
+				x.specError(e, fmt.Errorf("loop frame: cannot evaluate %s", e))
+				continue
+			}
+			slt, ok := sl.Ty.Underlying().(*types.Slice)
+			if !ok {
+				x.specError(e, fmt.Errorf("loop frame: elems() needs a slice"))
+				continue
+			}
+			k := regHeap("E$"+sortNameOfType(slt.Elem()), ArrSort(SInt, ArrSort(SInt, sortOfStatic(slt.Elem()))))
+			out = append(out, loopLoc{k, sliceAcc(sl.T, 0)})
 		case e.Kind == "sel":
 			base := env.eval(e.Args[0])
 			if env.err != nil || base.Ty == nil {
